@@ -100,17 +100,18 @@ func c08CutRun(c c07Case) Verdict {
 // ---- server-initiated close with a buffered suffix ----
 
 type c08CloseCase struct {
-	Mode   int      `json:"mode"`            // 0 SMTP, 1 LMTP plain, 2 LMTP per-recipient
-	Reason string   `json:"reason"`          // quit errors longline timeout panic-newsession panic-mail panic-rcpt panic-data panic-bdat
-	Prefix []string `json:"prefix"`          // command lines before the closing trigger (no CRLF)
-	Suffix []string `json:"suffix"`          // command lines buffered behind it, same segment
-	Split  bool     `json:"split,omitempty"` // suffix in a second segment sent right after (still before the server reacts or not - unordered)
+	Mode      int      `json:"mode"`   // 0 SMTP, 1 LMTP plain, 2 LMTP per-recipient
+	Reason    string   `json:"reason"` // quit errors longline timeout panic-newsession panic-mail panic-rcpt panic-data panic-bdat
+	Prefix    []string `json:"prefix"` // command lines before the closing trigger (no CRLF)
+	Suffix    []string `json:"suffix"` // command lines buffered behind it, same segment
+	GateStart bool     `json:"gate_start,omitempty"`
+	Split     bool     `json:"split,omitempty"` // suffix in a second segment sent right after (still before the server reacts or not - unordered)
 }
 
 func c08Trigger(c c08CloseCase) (pre []byte, trigger []byte, script harness.Script, cfg harness.Config) {
 	lmtp := c.Mode != 0
 	cfg = harness.Config{LMTP: lmtp, MaxLineLength: 64}
-	script = harness.Script{LMTPSession: c.Mode == 2}
+	script = harness.Script{LMTPSession: c.Mode == 2, GateStart: c.GateStart}
 	var sb strings.Builder
 	for _, l := range c.Prefix {
 		sb.WriteString(l + "\r\n")
@@ -187,7 +188,27 @@ func c08Play(c c08CloseCase, withSuffix bool) c08Obs {
 		w.Send(seg)
 	}
 	if c.Reason == "timeout" {
-		if !w.WaitClosed() {
+		// the idle timeout is only the trigger; wait (state-based) for the
+		// close, releasing a parked delivery the closing connection waits for
+		closed := false
+		for i := 0; i < 8 && !closed; i++ {
+			gate := false
+			ok := r.Hub.WaitUntil(func() bool {
+				if w.S.ClosedLocked() {
+					closed = true
+					return true
+				}
+				gate = r.B.AtGateLocked()
+				return gate
+			}, harness.Watchdog)
+			if !ok {
+				break
+			}
+			if gate && !closed {
+				r.B.ReleaseArrived()
+			}
+		}
+		if !closed {
 			w.Finish()
 			o.incon = "server did not close the connection after the idle timeout (watchdog)"
 			return o
@@ -311,25 +332,39 @@ func c08GenClose(t *rapid.T) c08CloseCase {
 		}
 		c.Split = rapid.IntRange(0, 4).Draw(t, "split") == 0 && false
 	}
+	c.GateStart = rapid.IntRange(0, 2).Draw(t, "gate_start") == 0
 	return c
 }
 
 // ---- STARTTLS replaces the session ----
 
 type c08TLSCase struct {
-	Mode int      `json:"mode"`
-	Pre  []string `json:"pre"`  // plaintext commands before STARTTLS
-	Post []string `json:"post"` // commands inside TLS
-	End  string   `json:"end"`  // "quit" or "eof"
+	GateStart bool     `json:"gate_start,omitempty"` // the delivery goroutine of an open chunked transfer starts only when released
+	Mode      int      `json:"mode"`
+	Pre       []string `json:"pre"`  // plaintext commands before STARTTLS
+	Post      []string `json:"post"` // commands inside TLS
+	End       string   `json:"end"`  // "quit" or "eof"
 }
 
 func c08TLSRun(c c08TLSCase) Verdict {
 	lmtp := c.Mode != 0
-	r := harness.NewRig(harness.Config{LMTP: lmtp, TLS: "starttls"}, harness.Script{LMTPSession: c.Mode == 2})
+	r := harness.NewRig(harness.Config{LMTP: lmtp, TLS: "starttls"}, harness.Script{LMTPSession: c.Mode == 2, GateStart: c.GateStart})
 	w, _ := r.Dial()
 	if st := w.WaitQuiet(); st != harness.QIdle {
 		w.Finish()
 		return Verdict{Inconclusive: "server not idle after connect: " + st}
+	}
+	// quiesce: release whatever parks on a gate until the server idles or closes
+	quiesce := func() string {
+		for i := 0; i < 8; i++ {
+			st := w.WaitQuiet()
+			if st == harness.QGate {
+				r.B.ReleaseArrived()
+				continue
+			}
+			return st
+		}
+		return harness.QWatchdog
 	}
 	var sb strings.Builder
 	for _, l := range c.Pre {
@@ -345,6 +380,10 @@ func c08TLSRun(c c08TLSCase) Verdict {
 		w.Finish()
 		return Verdict{Inconclusive: "TLS handshake: " + err.Error()}
 	}
+	if st := quiesce(); st != harness.QIdle {
+		w.Finish()
+		return Verdict{Inconclusive: "after the handshake: " + st}
+	}
 	sb.Reset()
 	for _, l := range c.Post {
 		sb.WriteString(l + "\r\n")
@@ -354,9 +393,9 @@ func c08TLSRun(c c08TLSCase) Verdict {
 	}
 	w.Send([]byte(sb.String()))
 	if c.End == "quit" {
-		if !w.WaitClosed() {
+		if st := quiesce(); st != harness.QClosed {
 			w.Finish()
-			return Verdict{Inconclusive: "server did not close after QUIT"}
+			return Verdict{Inconclusive: "server did not close after QUIT: " + st}
 		}
 	}
 	_, fin := w.Finish()
@@ -364,6 +403,9 @@ func c08TLSRun(c c08TLSCase) Verdict {
 		return Verdict{Inconclusive: "watchdog while finishing"}
 	}
 	v := Verdict{NonTrivial: true, Classes: []string{"starttls_replacement"}}
+	if c.GateStart {
+		v.Classes = append(v.Classes, "delivery_start_gated")
+	}
 	if p := r.Log.Panicked(); p != "" {
 		return failf("panic", "server logged a panic: %s", p)
 	}
@@ -420,7 +462,7 @@ func TestC08(t *testing.T) {
 		g := greetWord(mode != 0)
 		pres := [][]string{{}, {g + " a"}, {g + " a", "MAIL FROM:<s@x>"}, {g + " a", "MAIL FROM:<s@x>", "RCPT TO:<r@x>"}, {g + " a", "MAIL FROM:<s@x>", "RCPT TO:<r@x>", "BDAT 0"}}
 		posts := [][]string{{}, {g + " b"}, {g + " b", "MAIL FROM:<s2@x>", "RCPT TO:<r2@x>", "DATA", "x", "."}, {"MAIL FROM:<s2@x>"}, {g + " b", g + " c"}, {g + " b", "MAIL FROM:<s2@x>", "RCPT TO:<r2@x>", "BDAT 0"}}
-		return c08TLSCase{Mode: mode, Pre: rapid.SampledFrom(pres).Draw(rt, "pre"), Post: rapid.SampledFrom(posts).Draw(rt, "post"),
+		return c08TLSCase{GateStart: rapid.Bool().Draw(rt, "gate_start"), Mode: mode, Pre: rapid.SampledFrom(pres).Draw(rt, "pre"), Post: rapid.SampledFrom(posts).Draw(rt, "post"),
 			End: rapid.SampledFrom([]string{"quit", "eof"}).Draw(rt, "end")}
 	})
 }
